@@ -220,6 +220,7 @@ def run(ctx):
         return
     L = None
     endtxt = "len"
+    cut_k = 0
     for _ in range(6):
         L = _local_of(fa, eo)
         if L is not None and len(fa.defs().get(L, [])) > 1:
@@ -228,17 +229,20 @@ def run(ctx):
         o2 = fa.origin(eo)
         if o2[0] == "call" and _names(o2[2]) & {"saturating_sub", "wrapping_sub"}:
             endtxt = "len.saturating_sub(%s)" % (op_const(o2[2]["args"][1]) or {}).get("int", "?")
+            cut_k = (op_const(o2[2]["args"][1]) or {}).get("int")
             eo = o2[2]["args"][0]
         elif o2[0] == "call" and _names(o2[2]) & {"take"}:
             eo = o2[2]["args"][0]          # mem::take(&mut len)
         elif o2[0] == "rv" and o2[1]["k"] == "binop" and o2[1]["op"] in ("Sub", "SubWithOverflow"):
             endtxt = "len - %s" % (op_const(o2[1]["b"]) or {}).get("int", "?")
+            cut_k = (op_const(o2[1]["b"]) or {}).get("int")
             eo = o2[1]["a"]
         elif o2[0] == "place" and o2[1].root[0] == "local" and len(o2[1].proj) == 1:
             # `move _t.0` of a checked subtraction
             d = fa.single_def(o2[1].root[1])
             if d and d[2] == "assign" and d[3]["k"] == "binop" and d[3]["op"] in ("Sub", "SubWithOverflow"):
                 endtxt = "len - %s" % (op_const(d[3]["b"]) or {}).get("int", "?")
+                cut_k = (op_const(d[3]["b"]) or {}).get("int")
                 eo = d[3]["a"]
             else:
                 break
@@ -359,6 +363,12 @@ def run(ctx):
             if pl0 is not None and not pl0["p"] and pl0["l"] in re0:
                 RE.add(l0)
     ctx.count("FEATSPAN", "record-end flags of the reader", len(RE))
+    # ... they are branched on more than once (`if record_end && ..` and `if record_end {`): follow
+    # their value along the edges taken, like the constant-assigned flags
+    for l0 in sorted(RE):
+        if l0 not in fidx and f.locals[l0]["ty"] == "bool":
+            fidx[l0] = len(flags)
+            flags.append(l0)
     # the number of *output* bytes of the read (tuple member 2) and the arm taken for the
     # InputEmpty outcome (csv-core: enum ReadFieldResult { InputEmpty, OutputFull, Field{..}, End })
     nout = set()
@@ -390,6 +400,62 @@ def run(ctx):
             if (dl["l"] in resl and not dl["p"]) or (dl["l"] == rdest and len(dl["p"]) == 1 and
                                                      isinstance(dl["p"][0], dict) and dl["p"][0].get("f") == 0):
                 ie_arms.add(dict(zip(t0["vals"], t0["targets"])).get(0, t0["otherwise"]))
+    fe_arms = set()
+    for b0 in sorted(fa.live_blocks()):
+        t0 = fa.term(b0)
+        if t0["k"] != "switch":
+            continue
+        o0 = fa.origin(t0["op"])
+        if o0[0] == "rv" and o0[1]["k"] == "discr":
+            dl = o0[1]["place"]
+            if (dl["l"] in resl and not dl["p"]) or (dl["l"] == rdest and len(dl["p"]) == 1 and
+                                                     isinstance(dl["p"][0], dict) and dl["p"][0].get("f") == 0):
+                fe_arms.add(dict(zip(t0["vals"], t0["targets"])).get(2, t0["otherwise"]))
+    term_clause = bool(ie_arms) and bool(fe_arms) and field_dc <= {2} and cut_k in (0, 1)
+
+    def nin_plus(op, depth=0):
+        """k when the operand is `nin + k` (k a constant, 0 for nin itself), else None"""
+        pl = op_place(op)
+        if pl is None or depth > 6:
+            return None
+        if (pl["l"] in nin and not pl["p"]) or (pl["l"] == rdest and len(pl["p"]) == 1 and
+                                                isinstance(pl["p"][0], dict) and pl["p"][0].get("f") == 1):
+            return 0
+        if pl["p"] and not (len(pl["p"]) == 1 and isinstance(pl["p"][0], dict) and pl["p"][0].get("f") == 0):
+            return None
+        d = fa.single_def(pl["l"])
+        if d is None or d[2] != "assign":
+            return None
+        rv = d[3]
+        if rv["k"] == "use":
+            return nin_plus(rv["op"], depth + 1)
+        if rv["k"] == "binop" and rv["op"] in ("Add", "AddWithOverflow"):
+            for x, y in ((rv["a"], rv["b"]), (rv["b"], rv["a"])):
+                k = op_const(y)
+                base = nin_plus(x, depth + 1)
+                if base is not None and k is not None and "int" in k:
+                    return base + k["int"]
+        return None
+
+    def empty_eval(t, md):
+        """Outcome of a test whether the input handed to the reader was empty / nothing was
+        consumed, in the mode `md` (FE: the input was empty; FN: it was not)."""
+        o = fa.origin(t["op"])
+        if o[0] == "call" and _names(o[2]) & {"is_empty"} and o[2]["args"] and _local_of(fa, o[2]["args"][0]) == cursor:
+            return md == "FE"
+        if o[0] == "rv" and o[1]["k"] == "binop" and o[1]["op"] in ("Eq", "Ne"):
+            a_, b_ = o[1]["a"], o[1]["b"]
+            for x, y in ((a_, b_), (b_, a_)):
+                k = op_const(y)
+                if k is None or k.get("int") != 0:
+                    continue
+                isn = nin_plus(x) == 0
+                ox = fa.origin(x)
+                islen = ox[0] == "call" and _names(ox[2]) & {"len"} and ox[2]["args"] and _local_of(fa, ox[2]["args"][0]) == cursor
+                if isn or islen:
+                    return (md == "FE") == (o[1]["op"] == "Eq")
+        return None
+    term_bad = {}
     eof_clause = bool(ie_arms) and bool(nout) and field_dc <= {2}
     err_calls = {b0 for b0, t0 in fa.calls() if "invalid_format" in " ".join(_paths(t0))}
     eof_bad = {}
@@ -427,7 +493,7 @@ def run(ctx):
             return {"Eq": True, "Ne": False, "Gt": False, "Lt": False, "Ge": True, "Le": True}[o[1]["op"]]
         return None
     unreset = {}
-    start = (0, 0, "Z", "S", tuple("?" for _ in flags), "-", "-")
+    start = (0, 0, "Z", "S", tuple("?" for _ in flags), "-", "-", "-", 0)
     seen = {start}
     pred = {}
     work = [start]
@@ -436,19 +502,36 @@ def run(ctx):
     notes = set()
     foreign = set()
     while work:
-        b, c, lv, bv, fl, en, ie = entry = work.pop()
+        b, c, lv, bv, fl, en, ie, md, sl = entry = work.pop()
         fl = list(fl)
         if b == rfb:
             if en == "E" and c != 0:
                 unreset.setdefault(c, entry)
             en = "-"
             ie = "-"
+            md = "-"
         # "I": the input ran out while no field of a row had been started (c == 0), and nothing
         # was produced (taken as an assumption at the comparisons of the output count below)
         if eof_clause and b in ie_arms and c == 0:
             ie = "I"
         if ie == "I" and b in err_calls:
             eof_bad.setdefault(b, entry)
+        # which outcome ended the record, for the terminator clause: IE = the input ran out inside
+        # a field; FE / FN = a field was returned and the input handed to the reader was empty / was
+        # not (csv-core returns the last, empty field of `..,` at the end of the input that way)
+        forks = [md]
+        if term_clause and md == "-":
+            if b in ie_arms:
+                forks = ["IE"]
+            elif b in fe_arms:
+                forks = ["FE", "FN"]
+        if len(forks) == 2:
+            st2 = (b, c, lv, bv, tuple(fl), en, ie, forks[1], sl)
+            if st2 not in seen:
+                seen.add(st2)
+                pred[st2] = pred.get(entry)
+                work.append(st2)
+        md = forks[0]
         nstates += 1
         if nstates > 200000:
             raise EngineError("FEATSPAN: state space too large")
@@ -464,6 +547,15 @@ def run(ctx):
                     fl[fidx[l]] = "T" if k["int"] else "F"
                 else:
                     src = _local_of(fa, rv["op"]) if rv["k"] == "use" else None
+                    if src not in fidx and rv["k"] == "use":
+                        spl = op_place(rv["op"])
+                        for _ in range(4):          # through plain copies of a single-definition flag
+                            if spl is None or spl["p"] or spl["l"] in fidx:
+                                break
+                            d_ = fa.single_def(spl["l"])
+                            spl = op_place(d_[3]["op"]) if d_ and d_[2] == "assign" and d_[3]["k"] == "use" else None
+                        if spl is not None and not spl["p"] and spl["l"] in fidx:
+                            src = spl["l"]
                     fl[fidx[l]] = fl[fidx[src]] if src in fidx else "?"
             if l == C:
                 k = op_const(rv["op"]) if rv["k"] == "use" else None
@@ -482,8 +574,19 @@ def run(ctx):
                 k = op_const(rv["op"]) if rv["k"] == "use" else None
                 if k is not None and k.get("int") == 0:
                     lv = "Z"
+                    sl = 0
                 else:
                     src = overflow_src(rv["op"]) if rv["k"] == "use" else None
+                    if src and _local_of(fa, src[0]) == L:
+                        kk = nin_plus(src[1])
+                        kc = op_const(src[1])
+                        if kk is not None:
+                            sl = min(sl + kk, 3)
+                        elif kc is not None and "int" in kc:
+                            sl = min(sl + kc["int"], 3)
+                            continue            # a constant credit: not a change of what is measured
+                        else:
+                            sl = 3
                     if src and _local_of(fa, src[0]) == L and is_nin(src[1]):
                         if c >= 4:
                             lv = "F" if lv in ("Z", "F") else "G"
@@ -519,6 +622,10 @@ def run(ctx):
                         raise EngineError("FEATSPAN: the feature length is passed by &mut to %s" % sorted(_names(t)))
         if b == ub:
             arrivals.setdefault((lv, bv), entry)
+            if term_clause and md in ("IE", "FE", "FN") and sl < 3:
+                want = cut_k if md in ("IE", "FE") else 0
+                if sl != want:
+                    term_bad.setdefault((md, sl), entry)
         if t["k"] == "switch":
             tg = None
             if _local_of(fa, t["op"]) == C and not fa.origin(t["op"])[0] == "rv":
@@ -528,6 +635,8 @@ def run(ctx):
                 ev = cmp_eval(t, c)
                 if ev is None and ie == "I":
                     ev = nout_eval(t)
+                if ev is None and md in ("FE", "FN"):
+                    ev = empty_eval(t, md)
                 fl_l = _local_of(fa, t["op"])
                 if ev is None and fl_l in fidx and fa.origin(t["op"])[0] == "place" and fl[fidx[fl_l]] != "?":
                     ev = fl[fidx[fl_l]] == "T"
@@ -538,13 +647,50 @@ def run(ctx):
             ended_edge = None
             if _local_of(fa, t["op"]) in RE and fa.origin(t["op"])[0] != "rv":
                 ended_edge = bool_switch_targets(t)[1]
+            # a branch on a flag whose value is not known fixes it along each edge
+            refine = None
+            fl_r = _local_of(fa, t["op"])
+            if fl_r not in fidx:
+                spl = op_place(t["op"])
+                for _ in range(4):
+                    if spl is None or spl["p"] or spl["l"] in fidx:
+                        break
+                    d_ = fa.single_def(spl["l"])
+                    spl = op_place(d_[3]["op"]) if d_ and d_[2] == "assign" and d_[3]["k"] == "use" else None
+                if spl is not None and not spl["p"] and spl["l"] in fidx:
+                    fl_r = spl["l"]
+                    if tg is None and fl[fidx[fl_r]] != "?":
+                        # the value of this flag is known on this path
+                        f_t2, t_t2 = bool_switch_targets(t)
+                        succ = [t_t2 if fl[fidx[fl_r]] == "T" else f_t2]
+            if tg is None and fl_r in fidx and fl[fidx[fl_r]] == "?":
+                f_t2, t_t2 = bool_switch_targets(t)
+                if f_t2 != t_t2:
+                    # the flag and the flags it is a plain copy of
+                    idxs = [fidx[fl_r]]
+                    cur_ = fl_r
+                    for _ in range(4):
+                        d_ = fa.single_def(cur_)
+                        spl = op_place(d_[3]["op"]) if d_ and d_[2] == "assign" and d_[3]["k"] == "use" else None
+                        if spl is None or spl["p"]:
+                            break
+                        cur_ = spl["l"]
+                        if cur_ in fidx:
+                            idxs.append(fidx[cur_])
+                    refine = (idxs, f_t2, t_t2)
         else:
             succ = fa.succs(b)
             ended_edge = None
+            refine = None
         for x in succ:
             if fa.blocks[x].get("cleanup"):
                 continue
-            st = (x, c, lv, bv, tuple(fl), "E" if x == ended_edge else en, ie)
+            fl_x = fl
+            if refine is not None and x in (refine[1], refine[2]):
+                fl_x = list(fl)
+                for ix_ in refine[0]:
+                    fl_x[ix_] = "T" if x == refine[2] else "F"
+            st = (x, c, lv, bv, tuple(fl_x), "E" if x == ended_edge else en, ie, md, sl)
             if st not in seen:
                 seen.add(st)
                 pred[st] = entry
@@ -558,7 +704,7 @@ def run(ctx):
         out.reverse()
         # source lines with the abstract state, consecutive duplicates removed
         txt = []
-        for (b, c, lv, bv, _fl, _en, _ie) in out:
+        for (b, c, lv, bv, _fl, _en, _ie, _md, _sl) in out:
             ln = fa.loc(b).rsplit(":", 1)[-1]
             item = "L%s[c=%s,len=%s,base=%s]" % (ln, c, lv, bv)
             if not txt or txt[-1] != item:
@@ -609,6 +755,22 @@ def run(ctx):
                "too short` error at %s - the only test in front of it is on the consumed count, not on "
                "the output - so a lexicon that ends with a blank line (or CRLF) is rejected as a whole; "
                "path %s" % (sorted(fa.loc(x) for x in eof_bad), path_to(eof_bad[sorted(eof_bad)[0]])))
+    if term_clause:
+        what = {"IE": "the input runs out inside the last field (no final newline)",
+                "FE": "the last field is returned when the input is already empty (the row ends in a comma "
+                      "and there is no final newline)",
+                "FN": "a field that consumed its record terminator ends the row"}
+        ctx.ob("FEATSPAN", "terminator-is-cut-only-when-one-was-consumed", not term_bad, fa.loc(ub),
+               "the cut `%s` removes one byte exactly when a record terminator is among the counted bytes: "
+               "the two ways a row can end without one (input empty inside a field; the last field "
+               "returned on empty input) each credit the length with one byte" % endtxt if not term_bad else
+               "; ".join("when %s the length carries %d byte(s) of credit but the cut is `%s`: %s"
+                         % (what[m_], s_, endtxt,
+                            "the last byte of the feature (the comma) is cut off - a missing final newline "
+                            "changes the word" if m_ in ("IE", "FE") and s_ < cut_k else
+                            "the record terminator stays in the feature" if m_ == "FN" or s_ > cut_k else "")
+                         for (m_, s_) in sorted(term_bad)) +
+               "; path %s" % path_to(term_bad[sorted(term_bad)[0]]))
     ctx.assume("FEATSPAN decides where the feature slice starts and which bytes its length counts; "
                "the off-by-one for the record terminator (len - 1, CRLF) is csv-core behaviour "
                "and is not decided")
